@@ -268,6 +268,11 @@ func (c *Ctx) isFixture(fn *ssa.Function) bool {
 // Returns "" for dynamic calls through function values.
 func calleeName(call *ssa.CallCommon) string {
 	if call.IsInvoke() {
+		// named by the static interface type of the receiver expression (not by the
+		// interface that happens to declare the method, e.g. io.Closer)
+		if n := namedOf(call.Value.Type()); n != nil && n.Obj().Pkg() != nil {
+			return "(" + short(n.Obj().Pkg().Path()) + "." + n.Obj().Name() + ")." + call.Method.Name()
+		}
 		return objFuncName(call.Method)
 	}
 	if f := call.StaticCallee(); f != nil {
